@@ -58,12 +58,14 @@ def fn(name):
     def f(x, *a):
         if isinstance(x, E) or any(isinstance(y, E) for y in a):
             return E(f"{name} {E.lift(x)._p()}", False)
+        if isinstance(x, (int, np.integer)) and not isinstance(x, bool):
+            return E(f"{name} {E.lift(x)._p()}", False)      # e.g. np.log(2) inside a symbolic formula
         return getattr(_REAL, name)(x, *a)
     return f
 
 
 class _Real:
-    sqrt = staticmethod(math.sqrt); log = staticmethod(math.log); ceil = staticmethod(math.ceil)
+    sqrt = staticmethod(math.sqrt); log = staticmethod(math.log); ceil = staticmethod(math.ceil); floor = staticmethod(math.floor)
 _REAL = _Real()
 
 
@@ -247,6 +249,150 @@ def traced():
         a.receive_reward(1, E("r"))
         return ("V k r", a.V_reward[-1], "Published.runningMean V k r")
     run("poo_score", poo_score)
+
+    def hct_dt(which, variance=False):
+        # δ̃ as HCT / VHCT compute it: the two arguments of np.minimum in optTraverse (thresholds) / updateAllTree (U-values)
+        def f():
+            if variance:
+                from PyXAB.algos.VHCT import VHCT as HCT
+                import PyXAB.algos.VHCT as HM
+            else:
+                from PyXAB.algos.HCT import HCT
+                import PyXAB.algos.HCT as HM
+            cap = []
+
+            class Root:
+                def get_visited_times(self): return 0
+                def get_depth(self): return 0
+                def get_children(self): return None
+                def update_reward(self, r): pass
+                def compute_u_value(self, **k): pass
+                def get_tau_hi_value(self): return 0.0
+
+            class Part:
+                def get_depth(self): return 0
+                def get_root(self): return Root()
+                def get_node_list(self): return [[Root()]]
+                def make_children(self, parent=None, newlayer=False): pass
+            a = HCT.__new__(HCT)
+            a.iteration = 3; a.c1 = E("c1"); a.delta = E("delta"); a.c = E("c"); a.rho = E("rho"); a.nu = E("nu")
+            a.partition = Part(); a.tau_h = [0.0]; a.bound = E("bound")
+            saved = HM.compute_t_plus
+            HM.compute_t_plus = lambda x: E("tplus")
+            mn = np.minimum
+            np.minimum = lambda x, y: (cap.append((x, y)), E("dt"))[1]
+            try:
+                if which == "half":
+                    a.optTraverse()
+                else:
+                    a.updateBackwardTree = lambda: None
+                    a.updateAllTree([Root()], 0.0)
+            finally:
+                np.minimum = mn
+                HM.compute_t_plus = saved
+            x, y = cap[0]
+            ex = E(f"min2 {E.lift(x)._p()} {E.lift(y)._p()}", False)
+            cap_val = "((1 : α) / 2)" if which == "half" else "(1 : α)"
+            return ("c1 delta tplus", ex, f"Published.hctDt min2 {cap_val} c1 delta tplus")
+        return f
+    run("hct_dt_half", hct_dt("half"))
+    run("hct_dt_one", hct_dt("one"))
+    run("vhct_dt_half", hct_dt("half", True))
+    run("vhct_dt_one", hct_dt("one", True))
+
+    def gpo_consts():
+        from PyXAB.algos.GPO import GPO
+        from PyXAB.algos.HCT import HCT
+        fl = np.floor
+        np.floor = fn("floor")
+        try:
+            g = GPO(numax=E("numax"), rhomax=E("rhomax"), rounds=E("n"), domain=[[0.0, 1.0]], partition=object, algo=HCT)
+        finally:
+            np.floor = fl
+        return g
+    def gpo_N():
+        g = gpo_consts()
+        return ("rhomax n", g.N, "Published.gpoN log ceil rhomax n")
+    run("gpo_N", gpo_N)
+
+    def gpo_half():
+        g = gpo_consts()
+        # N is a sub-expression of the phase length: name it
+        Ns = g.N.s
+        ex = E(g.half_phase_length.s.replace(g.N._p(), "N"), False)
+        return ("n N", ex, "Published.gpoHalf floor n N")
+    run("gpo_half", gpo_half)
+
+    def poo_rho_and_cond():
+        from PyXAB.algos.POO import POO
+        got = {}
+
+        class Base:
+            def __init__(self, **kw): got.update(kw)
+            def pull(self, t): return [0.5]
+        Base.__name__ = "HCT"
+        a = POO.__new__(POO)
+        a.N = E("N"); a.n = E("n"); a.Dmax = E("Dmax"); a.counter = 0; a.phase = E("phase")
+        a.rhomax = E("rhomax"); a.numax = E("numax"); a.domain = [[0.0, 1.0]]; a.partition = object; a.algo = Base; a.rounds = 100
+        a.V_algo = []; a.V_reward = []; a.Times = []
+        E.CAP.clear()
+        a.pull(1)
+        return got, list(E.CAP)
+    def poo_rho():
+        got, cap = poo_rho_and_cond()
+        return ("rhomax N phase", got["rho"], "Published.gridRho rpow rhomax N phase")
+    run("poo_rho", poo_rho)
+
+    def poo_cond():
+        got, cap = poo_rho_and_cond()
+        op, lhs, rhs = cap[0]
+        return ("Dmax n", E.lift(rhs), "Published.pooBound log Dmax n")
+    run("poo_cond", poo_cond)
+
+    def zoom_refine(side):
+        def f():
+            from PyXAB.algos.Zooming import Zooming, point
+
+            class Cell:
+                def get_depth(self): return E("h")
+                def get_children(self): return []
+
+            class Part:
+                def get_depth(self): return 0
+                def make_children(self, parent=None, newlayer=False): pass
+            a = Zooming.__new__(Zooming)
+            arm = point([0.5])
+            a.best_arm = arm
+            a.active_points = {arm: Cell()}; a.average_rewards = {arm: E("avg")}; a.pulled_times = {arm: E("pulls")}
+            a.phase = E("phase"); a.time = 0; a.next_end_time = 10 ** 9; a.nu = E("nu"); a.rho = E("rho"); a.partition = Part()
+            E.CAP.clear()
+            a.receive_reward(1, E("r"))
+            op, lhs, rhs = [c for c in E.CAP if c[0] == "<="][0]
+            if side == "radius":
+                return ("phase pulls", lhs, "Published.zoomRadius sqrt phase (pulls + 1)")
+            return ("nu rho h", E.lift(rhs), "Published.zoomThreshold rpow nu rho h")
+        return f
+    run("zoom_radius", zoom_refine("radius"))
+    run("zoom_threshold", zoom_refine("threshold"))
+
+    def zoom_mean():
+        from PyXAB.algos.Zooming import Zooming, point
+
+        class Cell:
+            def get_depth(self): return E("h")
+            def get_children(self): return []
+
+        class Part:
+            def get_depth(self): return 0
+            def make_children(self, parent=None, newlayer=False): pass
+        a = Zooming.__new__(Zooming)
+        arm = point([0.5])
+        a.best_arm = arm
+        a.active_points = {arm: Cell()}; a.average_rewards = {arm: E("V")}; a.pulled_times = {arm: E("k")}
+        a.phase = E("phase"); a.time = 0; a.next_end_time = 10 ** 9; a.nu = E("nu"); a.rho = E("rho"); a.partition = Part()
+        a.receive_reward(1, E("r"))
+        return ("V k r", a.average_rewards[arm], "Published.runningMean V k r")
+    run("zoom_mean", zoom_mean)
     return out, problems
 
 
@@ -261,12 +407,15 @@ set_option linter.unusedSimpArgs false
 set_option linter.unusedTactic false
 set_option linter.unreachableTactic false
 namespace PyXAB.GeneratedF
-variable {α : Type} [Field α] (sqrt log ceil : α → α) (rpow : α → α → α) (max : α → α → α)
+variable {α : Type} [Field α] (sqrt log ceil floor : α → α) (rpow : α → α → α) (max min2 : α → α → α)
 """
 
 
 SUBSETS = {"C05": ["hoo_u", "hct_u", "vhct_u"], "C06": ["hct_tau", "vhct_tau", "hoo_depth"], "C08": ["sto_b", "doo_b"],
-           "C10": ["poo_score"], "C11": ["zoom_index"], "C13": ["vroom_lcb"]}
+           "C10": ["poo_score", "poo_rho", "poo_cond"], "C11": ["zoom_index", "zoom_radius", "zoom_threshold", "zoom_mean"],
+           "C13": ["vroom_lcb"], "C09": ["gpo_N", "gpo_half"]}
+SUBSETS["C05"] += ["hct_dt_one", "vhct_dt_one"]
+SUBSETS["C06"] += ["hct_dt_half", "vhct_dt_half"]
 
 
 def generate(prop=None):
@@ -294,7 +443,8 @@ def generate(prop=None):
 theorem {name} ({vs} : α) :
     {ex.s} = {spec} := by
   (simp only [Published.hooU, Published.hctU, Published.vhctU, Published.hctTau, Published.vhctTau, Published.stoB, Published.dooB,
-    Published.hooDepth, Published.zoomIndex, Published.vroomLcb, Published.runningMean])
+    Published.hooDepth, Published.zoomIndex, Published.vroomLcb, Published.runningMean, Published.hctDt, Published.gpoN,
+    Published.gpoHalf, Published.gridRho, Published.pooBound, Published.zoomRadius, Published.zoomThreshold])
     <;> (first | rfl | ring | (ring_nf; done) | (congr 1 <;> ring_nf; done) | (congr 2 <;> ring_nf; done))
 """)
         names.append(name)
